@@ -30,6 +30,7 @@ OBLIGATIONS = [
     "Pkgcore.C35.death_notice_pending",
     "Pkgcore.C35.api_programs_wf",
     "Pkgcore.C35.answers_wf",
+    "Pkgcore.C35.notice_forms_recognised",
 ]
 TRUSTED = [
     "the two state machines are a hand-written abstraction at message level: reply kinds instead of texts, multi-line units "
@@ -45,8 +46,11 @@ ASSUMPTIONS = [
     "handlers answer a request with the answer kinds of that request (`wfTo`), as inherit_handler, IpcCommand, "
     "_request_bashrcs and sandbox_summary do",
 ]
-RULE = ("recorded sessions on real daemons: 12 scripted scenarios (each API call, each request kind, logging, file and inline "
-        "transfer, die, unknown command, failed transfer, SIGTERM, shutdown) plus random sequences of 3-8 API calls on one "
+RULE = ("every read context of the processor (synchronous expect, batched expects, generic_handler, inside a helper request) x "
+        "every notice form (dying, dying <logfile>, logfile with blanks, SIGINT, SIGTERM) on stub pipes; "
+        "recorded sessions on real daemons: 16 scripted scenarios (each API call, each request kind, logging, file and inline "
+        "transfer, die with and without build logging, die inside a profile bashrc while Python waits for `next`, die after an IPC "
+        "exchange, unknown command, failed transfer, SIGTERM, shutdown) plus random sequences of 3-8 API calls on one "
         "daemon with random preload batches and phase modes; non-trivial = the session contains an asynchronous batch, a "
         "request from the daemon or a death; distinct by abstract trace")
 LEVEL_TEXT = ("Kernel-checked Lean 4 theorems over the global transition system of the two sides (any interleaving, any number of "
@@ -204,6 +208,7 @@ pkg_pretend() {
 		bashrc) PKGCORE_SUPPRESS_BASHRCS=false __source_bashrcs ;;
 		both) __ebd_ipc_cmd probe "" x; PKGCORE_SUPPRESS_BASHRCS=false __source_bashrcs; __ebd_ipc_cmd probe "" y ;;
 		die) die "boom" ;;
+		ipcdie) __ebd_ipc_cmd probe "" first; die "after an ipc request" ;;
 		sleep) sleep 30 ;;
 	esac
 	:
@@ -246,8 +251,16 @@ class Bench:
         self.handlers = {"probe": Probe(op), "request_bashrcs": self._bashrcs,
                          "request_inherit": lambda ebd, line=None: processor.inherit_handler(self.repo.eclass_cache, ebd, line)}
         self.nbashrcs = 1
+        self.dying_bashrc = False
+        with open(os.path.join(scratch, "dying.bashrc"), "w") as f:
+            f.write('die "bashrc boom"\n')
 
     def _bashrcs(self, ebd, a=None):
+        if self.dying_bashrc:
+            # a profile bashrc that calls die: the notice arrives while Python waits for `next` (synchronous expect)
+            ebd.write(f"path\n{self.scratch}/dying.bashrc")
+            if not ebd.expect("next"):
+                raise RuntimeError("no next")
         for n in ["bar", "baz"][:self.nbashrcs]:
             ebd.write(f"path\n{self.scratch}/repo/eclass/{n}.eclass")
             if not ebd.expect("next"):
@@ -359,8 +372,88 @@ def run(ctx):
         shutil.rmtree(scratch, ignore_errors=True)
 
 
+def _notice_matrix(ctx, scratch):
+    """every read of the real processor code × every form of the death notice (stub pipes, no daemon): the notice must be
+    recognised wherever it arrives — `dying`, `dying <logfile>` (any path), `SIGINT`, `SIGTERM`"""
+    import io
+    from pkgcore.ebuild import ebd_ipc, processor
+    processor.shutdown_all_processors()          # chuck_KeyboardInterrupt shuts down every known processor: none may exist
+    body = [" * ERROR: cat/pkg-1 failed (install phase):", " *   the message", " * "]
+    os.makedirs(os.path.join(scratch, "my logs"), exist_ok=True)      # chuck_DyingInterrupt appends the message to the log file
+    forms = [("dying", "dying \n"), ("dying-logfile", f"dying {scratch}/cat:pkg-1:20260922-101010.log\n"),
+             ("dying-logfile-spaces", f"dying {scratch}/my logs/build log.txt\n"), ("dying-bare", "dying\n"),
+             ("SIGINT", "SIGINT\n"), ("SIGTERM", "SIGTERM\n")]
+    lines = ctx.model([{"cmd": "c35.notice", "line": text} for _, text in forms])
+    for (fname, text), isn in zip(forms, lines):
+        if isn is not True:
+            ctx.mismatch({"form": fname}, "the model does not classify this notice form as a notice")
+
+    class Probe(ebd_ipc.IpcCommand):
+        def run(self, args):
+            return None
+    op = types.SimpleNamespace(pkg=types.SimpleNamespace(eapi=None), observer=None)
+
+    def contexts(p):
+        def sync_expect():
+            return p.expect("next")
+
+        def async_batch():
+            p._outstanding_expects = [(False, "preload_eclass succeeded"), (False, "preload_eclass succeeded")]
+            return p._consume_async_expects()
+
+        def handler():
+            return p.generic_handler(additional_commands={"probe": Probe(op)})
+
+        def ipc_read():
+            # the notice arrives instead of the second line of a helper request
+            return p.generic_handler(additional_commands={"probe": Probe(op)})
+        return [("sync-expect", sync_expect, b""), ("async-batch", async_batch, b"preload_eclass succeeded\n"),
+                ("generic_handler", handler, b""), ("ipc-request", ipc_read, b"probe\nfalse\n")]
+
+    for fname, text in forms:
+        for cname, _, _ in contexts(None):
+            p = processor.EbuildProcessor.__new__(processor.EbuildProcessor)
+            p._readonly_vars, p._outstanding_expects, p.pid = frozenset(), [], None
+            calls = []
+            p.shutdown_processor = lambda *a, _c=calls, **kw: _c.append(kw.get("force", a[0] if a else False))
+            cfun, prefix = next((f, pre) for n, f, pre in contexts(p) if n == cname)
+            payload = text.encode()
+            if fname.startswith("dying"):
+                payload += "".join(l + "\n" for l in body).encode() + b"dead\n"
+            p.ebd_read = io.BytesIO(prefix + payload + b"SENTINEL\n")
+            p.ebd_write = open(os.path.join(scratch, "matrix-pipe"), "w")
+            case = {"scenario": "notice-matrix", "context": cname, "form": fname, "line": text}
+            try:
+                res, err = cfun(), None
+            except BaseException as e:  # noqa
+                res, err = None, e
+            finally:
+                p.ebd_write.close()
+            rest = p.ebd_read.read()
+            ctx.case(case, True)
+            ctx.count("matrix_" + cname)
+            ctx.count("matrix_form_" + fname)
+            if fname.startswith("dying"):
+                if type(err).__name__ != "EbdError":
+                    ctx.violation(case, f"a die notice {text!r} arriving in {cname} was not handled as a die: "
+                                        f"{type(err).__name__ if err else 'returned ' + repr(res)}: {str(err)[:100]}")
+                elif rest != b"SENTINEL\n":
+                    ctx.violation(case, f"after the die notice the pipe holds {rest[:60]!r}: the message was not consumed up to `dead`")
+                elif "the message" not in str(err.error):
+                    ctx.violation(case, "the die message did not reach the EbdError")
+                elif True not in calls:
+                    ctx.violation(case, "the dying daemon was not shut down (force)")
+            elif fname == "SIGINT":
+                if not isinstance(err, KeyboardInterrupt):
+                    ctx.violation(case, f"SIGINT notice in {cname}: {type(err).__name__ if err else 'returned ' + repr(res)}")
+            else:
+                if not calls:
+                    ctx.violation(case, f"SIGTERM notice in {cname}: the processor was not shut down")
+
+
 def _run(ctx, scratch):
     rng = ctx.rng
+    _notice_matrix(ctx, scratch)
     bench = Bench(ctx, scratch)
     if bench.pkg is None:
         ctx.broken.append("the one-ebuild repository does not yield its package")
@@ -377,6 +470,13 @@ def _run(ctx, scratch):
             return bench.phase(ebp, "none", extra={"UID": "12345"})     # assigning a readonly variable fails in the daemon
         finally:
             ebp._readonly_vars = saved
+
+    def dying_bashrc(ebp, logging):
+        bench.dying_bashrc = True
+        try:
+            return bench.phase(ebp, "bashrc", logging=logging)
+        finally:
+            bench.dying_bashrc = False
 
     def sigterm(ebp):
         threading.Timer(1.5, lambda: os.kill(ebp.pid, signal.SIGTERM)).start()
@@ -395,18 +495,27 @@ def _run(ctx, scratch):
         ("phase-ipc", lambda e: bench.phase(e, "ipc"), None, True),
         ("phase-bashrc-logging-file", lambda e: bench.phase(e, "both", logging=True, tmpdir=True), None, True),
         ("die", lambda e: bench.phase(e, "die"), "EbdError", False),
+        ("die-logging", lambda e: bench.phase(e, "die", logging=True), "EbdError", False),
+        ("die-in-bashrc-logging", lambda e: dying_bashrc(e, True), "EbdError", False),
+        ("die-in-bashrc", lambda e: dying_bashrc(e, False), "EbdError", False),
+        ("die-after-ipc-logging-file", lambda e: bench.phase(e, "ipcdie", logging=True, tmpdir=True), "EbdError", False),
         ("unknown-command", lambda e: (e.write("bogus_command x"), e.is_responsive)[1], "EbdError", False),
         ("env-transfer-fails", bad_env, "False", False),
         ("shutdown", shutdown, None, False),
     ]
-    if not ctx.quick():
+    if ctx.quick():
+        # the stub matrix above covers every notice form in every read context; on the real daemon the quick tier keeps the
+        # two extreme die scenarios (no log file / log file + synchronous expect) and leaves the rest to the thorough tier
+        skip = {"die-logging", "die-in-bashrc", "die-after-ipc-logging-file", "preload-sync", "responsive"}
+        scenarios = [sc for sc in scenarios if sc[0] not in skip]
+    else:
         scenarios.append(("sigterm", sigterm, "any", False))
     sessions = []
     for name, fn, err, leaves in scenarios:
         sessions.append((name,) + bench.session(name, fn, expect_error=err if err != "any" else "False", leaves_daemon=leaves))
     ops = [bench.op_responsive, bench.op_preload_async, bench.op_preload_sync, bench.op_clear, bench.op_keys, bench.op_envdump,
            bench.op_phase, bench.op_phase]
-    for i in range(ctx.n(10, 80)):
+    for i in range(ctx.n(4, 80)):
         chosen = [rng.choice(ops) for _ in range(rng.randint(3, 8))]
 
         def seq(ebp, chosen=chosen):
@@ -416,6 +525,12 @@ def _run(ctx, scratch):
             return True
         sessions.append(("random:" + ",".join(f.__name__[3:] for f in chosen),) + bench.session("random", seq))
 
+    # the harness' abstraction of notices must be the model's (first word of the line)
+    lines_read = sorted({t for _, _, _, log in sessions for k, t in log if k == "r" and t})
+    for t, isn in zip(lines_read, ctx.model([{"cmd": "c35.notice", "line": t} for t in lines_read])):
+        mine = t.strip().split(" ", 1)[0] in ("dying", "SIGINT", "SIGTERM")
+        if isn != mine:
+            ctx.mismatch({"line": t}, f"the model classifies this line as notice={isn}, the harness as {mine}")
     reps = ctx.model([{"cmd": "c35.accept", "trace": tr} for _, tr, _, _ in sessions])
     for (name, tr, problems, log), rep in zip(sessions, reps):
         case = {"scenario": name, "trace": tr}
@@ -437,6 +552,10 @@ def _run(ctx, scratch):
             at = rep["prefix"]
             ctx.mismatch(case, f"the recorded session is not a behaviour of the model: rejected at observation {at}: "
                                f"{tr[max(0, at - 3):at + 2]!r}")
+        dying_at = next((i for i, (k, t) in enumerate(log) if k == "r" and t.split(" ", 1)[0].strip() == "dying"), None)
+        if dying_at is not None and not any(k == "r" and t.strip() == "dead" for k, t in log[dying_at:]):
+            ctx.violation(case, f"a die notice {log[dying_at][1]!r} arrived but its message was not read up to `dead` "
+                                f"(lines read afterwards: {[t for k, t in log[dying_at + 1:] if k == 'r'][:3]!r})")
         if any(m == "junk" for k, m in tr if k == "r"):
             ctx.mismatch(case, "a line read by Python could not be classified: " + repr([t for k, t in log if k == 'r'][:5]))
     ctx.extra["sessions"] = len(sessions)
